@@ -59,11 +59,9 @@ def u8 : Bytes → Option UInt8
   | [a] => some a
   | _ => none
 
-/-- RFC 2132 strings (domain name §3.17, root path §3.19, class identifier
-§9.13, message §9.9): any octets. The accessors for these four return the
-octets unchanged — the library does NOT delete trailing NULs for them, which
-RFC 2132 §2 says a receiver "MUST be prepared to" do; it is left to the
-caller. -/
+/-- RFC 2132 §9.13 vendor class identifier (option 60): "n octets, interpreted
+by servers"; opaque octets, not NVT ASCII, so nothing is deleted — the accessor
+returns the octets exactly as sent, NULs included. -/
 def str (v : Bytes) : Option Bytes := some v
 
 /-- remove every trailing NUL -/
@@ -76,8 +74,9 @@ def stripNul : Bytes → Bytes
 
 /-- RFC 2132 §2: "Options containing NVT ASCII data SHOULD NOT include a
 trailing NULL; however, the receiver of such options MUST be prepared to
-delete trailing nulls if they exist." Applied by the library to host name
-(§3.14), boot file name (§9.5) and TFTP server name (§9.4). -/
+delete trailing nulls if they exist." The NVT-ASCII options with a typed
+accessor: host name 12 (§3.14), domain name 15 (§3.17), root path 17 (§3.19),
+message 56 (§9.9), TFTP server name 66 (§9.4), boot file name 67 (§9.5). -/
 def strTrim (v : Bytes) : Option Bytes := some (stripNul v)
 
 /-- RFC 2132 §9.8 parameter request list: a list of option codes, one octet
@@ -165,23 +164,17 @@ def vivc (v : Bytes) : Option (List (Nat × Bytes)) :=
   | _ => vendorClasses v
 
 /-- RFC 3046 §2.0 agent information field: "a sequence of SubOpt/Length/Value
-tuples", tiling the field. The library parses the field with the DHCP options
-grammar (documented on `Options.FromBytes`/`fromBytesCheckEnd`), which adds:
-code 0 is a one-octet pad, code 255 ends the list and whatever follows it is
-ignored. Both are encoded here. Returns the tuples in wire order. -/
+tuples" tiling the field exactly. RFC 3046 defines no pad and no end code in
+the sub-option space: 0 and 255 are ordinary sub-option codes. Returns the
+tuples in wire order. -/
 def subOptions : Bytes → Option (List (UInt8 × Bytes))
   | [] => some []
-  | c :: rest =>
-    if c = 0 then subOptions rest
-    else if c = 255 then some []
-    else
-      match rest with
-      | [] => none
-      | n :: rest' =>
-        if rest'.length < n.toNat then none
-        else (subOptions (rest'.drop n.toNat)).map (fun t => (c, rest'.take n.toNat) :: t)
+  | [_] => none
+  | c :: n :: rest =>
+    if rest.length < n.toNat then none
+    else (subOptions (rest.drop n.toNat)).map (fun t => (c, rest.take n.toNat) :: t)
 termination_by b => b.length
-decreasing_by all_goals (simp; try omega)
+decreasing_by simp; omega
 
 /-- value of sub-option `c` in a tuple list: absent if no tuple carries the
 code, else the concatenation of all its instances (RFC 3396 §7 style, as the
@@ -195,20 +188,42 @@ def subOptionValue (tuples : List (UInt8 × Bytes)) (c : UInt8) : Option Bytes :
 def relay (v : Bytes) : Option (UInt8 → Option Bytes) :=
   (subOptions v).map subOptionValue
 
-/-- RFC 3046 §2.0 read to the letter: every octet of the field belongs to a
-SubOpt/Len/Value tuple and codes 0 and 255 are ordinary sub-option codes.
-The library does NOT implement this reading (see `subOptions`); it is kept
-to state precisely where the two differ (`C17_RelayAgentInfo_strict_*`). -/
-def subOptionsStrict : Bytes → Option (List (UInt8 × Bytes))
-  | [] => some []
-  | [_] => none
+/-- the values on which the known finding `acc-RelayAgentInfo-pad-end` cannot
+show: walking the tuples as far as they go, no octet in sub-option code
+position is 0 or 255. -/
+def noPadEndCodes : Bytes → Bool
+  | [] => true
+  | [c] => c != 0 && c != 255
   | c :: n :: rest =>
-    if rest.length < n.toNat then none
-    else (subOptionsStrict (rest.drop n.toNat)).map (fun t => (c, rest.take n.toNat) :: t)
+    c != 0 && c != 255 &&
+      (if rest.length < n.toNat then true else noPadEndCodes (rest.drop n.toNat))
 termination_by b => b.length
 decreasing_by simp; omega
 
-def relayStrict (v : Bytes) : Option (UInt8 → Option Bytes) :=
-  (subOptionsStrict v).map subOptionValue
+/-! #### NOT the RFC: the grammar the library applies to option 82
+
+`RelayOptions.FromBytes` parses the field with the DHCP *options field*
+grammar (`Options.FromBytes`): an octet 0 in code position is a one-octet pad,
+an octet 255 in code position ends the list and whatever follows is ignored.
+It is written down here only to state exactly what the accessor computes
+(`C17_RelayAgentInfo_padend_*`) next to what RFC 3046 says (`relay`); the
+difference is the known finding `acc-RelayAgentInfo-pad-end`. -/
+
+def subOptionsPadEnd : Bytes → Option (List (UInt8 × Bytes))
+  | [] => some []
+  | c :: rest =>
+    if c = 0 then subOptionsPadEnd rest
+    else if c = 255 then some []
+    else
+      match rest with
+      | [] => none
+      | n :: rest' =>
+        if rest'.length < n.toNat then none
+        else (subOptionsPadEnd (rest'.drop n.toNat)).map (fun t => (c, rest'.take n.toNat) :: t)
+termination_by b => b.length
+decreasing_by all_goals (simp; try omega)
+
+def relayPadEnd (v : Bytes) : Option (UInt8 → Option Bytes) :=
+  (subOptionsPadEnd v).map subOptionValue
 
 end Dhcp.Spec.Val4
